@@ -629,6 +629,13 @@ func TagEquivalence(k *fw.Case) {
 			if r.Intn(2) == 0 {
 				names = names[:13+r.Intn(len(names)-12)]
 			}
+			if r.Intn(3) == 0 {
+				// repeated names: whatever the variant without a tag does with them, its tagged twin does the same
+				for j := 1 + r.Intn(3); j > 0; j-- {
+					pos := r.Intn(len(names) + 1)
+					names = append(names[:pos], append([]string{names[r.Intn(len(names))]}, names[pos:]...)...)
+				}
+			}
 			c1 := Call{Method: pr[0], B: b, Names: names, Pool: t.Pool != nil}
 			c2 := Call{Method: pr[1], B: b, Names: names, Pool: t.Pool != nil}
 			o1 := t.Invoke(c1, NewLog())
